@@ -143,9 +143,14 @@ def run(case, rec):
             rec.check(bool(np.all(gv[mask] == vals[mask])), "grid form changed values it kept")
         else:
             a, b = (qe, qn) if form == "array2d" else (qe.ravel(), qn.ravel())
+            before = (de.tobytes(), dn.tobytes(), a.tobytes(), b.tobytes())
             got = call(rec, vd.convexhull_mask, (de, dn), coordinates=(a, b))
             if raised(got):
                 return rec.check(False, "convexhull_mask raised %r" % (got,))
+            # the caller's arrays are untouched, so a second call with the very same arrays gives the same mask (seed C16-1)
+            rec.check((de.tobytes(), dn.tobytes(), a.tobytes(), b.tobytes()) == before, "convexhull_mask modified the arrays it was given")
+            again = call(rec, vd.convexhull_mask, (de, dn), coordinates=(a, b))
+            rec.check(not raised(again) and np.array_equal(np.asarray(again), np.asarray(got)), "a second call with the same arrays gives a different mask")
             mask = np.asarray(got)
             rec.check(mask.dtype == bool and mask.shape == a.shape, "mask must be boolean in the query shape")
             mask = mask.reshape(11, 11)
